@@ -7,6 +7,8 @@ import pylib
 import sexp_reader
 from pddl_plus_parser.exporters import ENHSPParser, MetricFFParser
 
+FF_PARSER = None
+
 STEPNO = re.compile(r"^\d+:$")
 
 
@@ -31,6 +33,9 @@ def actions(plan_lines):
 
 
 def run_case(case, opts):
+    global FF_PARSER
+    if FF_PARSER is None:
+        FF_PARSER = MetricFFParser()       # one parser object for all the logs of the process
     text = case["text"]
     rec = {"id": case["id"], "kind": case["kind"], "lines": lex(text), "text": text[-1500:]}
     if case["id"] % 2:
@@ -42,9 +47,9 @@ def run_case(case, opts):
         p = pylib.write_tmp(text, ".out", newline="")
     try:
         if case["kind"] == "ff":
-            status, seq = MetricFFParser().get_solving_status(p)
+            status, seq = FF_PARSER.get_solving_status(p)
             outp = str(p) + ".plan"
-            MetricFFParser().parse_plan(p, outp)
+            FF_PARSER.parse_plan(p, outp)
             file_plan = actions(open(outp).read().split("\n")) if os.path.exists(outp) else []
             if os.path.exists(outp):
                 os.unlink(outp)
